@@ -179,7 +179,8 @@ def generate(rng, tier):
             gen_file(alt, os.path.dirname(alt), depth + 1, st)
             subtree = set(m.status) - before
             txt = '#[cfg_attr(feature = "x", path = "alt_%s.rs")]\nmod %s;\n' % (name, name)
-            if rng.chance(60):
+            # (an alternate that opts out leaves only the default location: it must exist then)
+            if rng.chance(60) or m.why.get(alt) == "inner skip attribute":
                 target, cdir = place(childdir, name)
                 gen_file(target, cdir, depth + 1, st)
                 if m.why.get(target) == "inner skip attribute":
@@ -190,7 +191,16 @@ def generate(rng, tier):
             m.feats.add("cfg_if")
             target, cdir = place(childdir, name)
             gen_file(target, cdir, depth + 1, st)
-            return "cfg_if::cfg_if! {\n    if #[cfg(unix)] {\n        mod %s;\n    } else {\n        fn  nothing( ){ }\n    }\n}\n" % name
+            if st == "E":
+                decls_for_fault.append((decl_file, name, target))
+            other = "fn  nothing( ){ }"
+            if budget[0] > 0 and names and rng.chance(60):
+                budget[0] -= 1
+                n2 = names.pop(0)
+                t2, c2 = place(childdir, n2)
+                gen_file(t2, c2, depth + 1, st)
+                other = "mod %s;" % n2
+            return "cfg_if::cfg_if! {\n    if #[cfg(unix)] {\n        mod %s;\n    } else {\n        %s\n    }\n}\n" % (name, other)
         if "cfg_match" in feats and k < 66:
             m.feats.add("cfg_match")
             target, cdir = place(childdir, name)
@@ -307,6 +317,15 @@ def generate(rng, tier):
             if f != root:
                 m.status[f] = "X"
                 m.why[f] = "skip_children"
+    prelude = False
+    if lane == "normal" and rng.chance(20):
+        # another root, above the crate, with its own (harmless) project file, named first on the command line:
+        # the crate's own rustfmt.toml must still be the one that decides its exclusions
+        prelude = True
+        m.files["pre.rs"] = gen_rust.tiny_unformatted("prelude")
+        m.status["pre.rs"] = "E"
+        m.files["rustfmt.toml"] = "max_width = 100\n"
+        m.feats.add("outer-root-first")
     fault = None
     if lane == "fault":
         decls_for_fault = [d for d in decls_for_fault if m.status.get(d[2]) == "E" and m.status.get(d[0]) in ("E",) and d[0] not in tags and d[2] not in tags]
@@ -319,13 +338,13 @@ def generate(rng, tier):
             lane = "normal"
     return {
         "world": {"files": m.files}, "status": m.status, "why": m.why, "root": root, "base": base,
-        "features": sorted(m.feats), "lane": lane, "fault": fault, "twice": twice, "tags": tags,
+        "features": sorted(m.feats), "lane": lane, "fault": fault, "twice": twice, "tags": tags, "prelude": prelude,
         "spelling": rng.choice(["rel", "rel", "abs", "cwd", "symlink"]), "hashseed": rng.below(1 << 32),
         "lang_reach": list(m.order),
     }
 
 
-RUSTC_OK_FEATS = {"modrs", "path", "inline", "decoys", "adversarial-decoy", "skipmod", "innerskip", "ignore", "generated-in-limit",
+RUSTC_OK_FEATS = {"modrs", "path", "inline", "decoys", "adversarial-decoy", "outer-root-first", "skipmod", "innerskip", "ignore", "generated-in-limit",
                   "generated-after-limit", "twice-same"}
 
 
@@ -396,6 +415,8 @@ def execute(case):
         else:
             cwd, arg = ".", root
         argv = [arg]
+        if case.get("prelude"):
+            argv = [os.path.relpath("pre.rs", cwd)] + argv
         if lane == "skip_children":
             argv = ["--config", "skip_children=true"] + argv
         inv = {"argv": argv, "cwd": cwd, "hashseed": case["hashseed"], "plan": plan + core.legal_perturbation(case["hashseed"] // 3)}
@@ -440,10 +461,9 @@ def execute(case):
             v.sample = {"lane": lane, "fault": case["fault"], "status": res.status()}
             return v
         if res.exit != 0:
+            # the model says this tree is fine: a failing run shows up below as reachable files left unformatted
             v.probe("run-failed")
             v.info["run_failed"] = 1
-            if res.exit == 1 and not changed:
-                return v
         E = {f for f, s in status.items() if s == "E"}
         X = {f for f, s in status.items() if s == "X"}
         D = {f for f, s in status.items() if s == "D"}
